@@ -127,15 +127,28 @@ def nodupB : List String → Bool
   | [] => true
   | a :: r => !r.contains a && nodupB r
 
-/-- every field is encoded (exported, not named "-") and the Avro names are pairwise distinct -/
-def structOk (fs : List GoField) : Bool :=
-  (fs.map nameForField).all (· != "-") && nodupB (fs.map nameForField)
+/-- the struct fields that are encoded: exported and not excluded by a `json:"-"` / `bq:"-"` tag
+(`nameForField f ≠ "-"`); the others have no schema field and no codec -/
+def encFields (fs : List GoField) : List GoField := fs.filter fun f => nameForField f != "-"
+
+/-- the struct field index each record field is read into (`RecordCodec` targets): the positions of
+the encoded fields, counted from `i` -/
+def targetsFrom : Nat → List GoField → List (Option Nat)
+  | _, [] => []
+  | i, f :: fs => if nameForField f != "-" then some i :: targetsFrom (i + 1) fs else targetsFrom (i + 1) fs
+
+/-- every field is encoded (exported, not named "-") -/
+def allEnc (fs : List GoField) : Bool := (fs.map nameForField).all (· != "-")
+
+/-- the Avro names of the encoded fields are pairwise distinct -/
+def structOk (fs : List GoField) : Bool := nodupB ((encFields fs).map nameForField)
 
 mutual
 /-- the codec for the non-union part of the generated schema of `T`
 (`buildCodec u (some T) oe` with `u` the schema of `T` without its nullable wrapper).
 The fragment: bool, int16/32/64, float32/64, string, `[]byte`, slices, string-keyed maps, pointers,
-structs all of whose fields are encoded under distinct names, `time.Time`, `null.*`. -/
+structs whose encoded fields have distinct names (unexported fields and fields tagged "-" are
+skipped: no schema field, no codec, no target), `time.Time`, `null.*`. -/
 def bareCodec : Nat → GoType → Bool → Option Codec
   | 0, _, _ => none
   | n + 1, T, oe =>
@@ -152,8 +165,8 @@ def bareCodec : Nat → GoType → Bool → Option Codec
     | .ptr e => (bareCodec n e false).map .pointer
     | .struct _ _ fs =>
       if structOk fs then
-        (allSome (fs.map fun f => fieldCodec n f.type (omitEmptyTag f.jsonTag))).map fun cs =>
-          .record (zeroFields fs) cs ((List.range fs.length).map some)
+        (allSome ((encFields fs).map fun f => fieldCodec n f.type (omitEmptyTag f.jsonTag))).map fun cs =>
+          .record (zeroFields fs) cs (targetsFrom 0 fs)
       else none
     | .time => some .timeString
     | .nullT k => some (.nullw (match k with | .float => .double | k => k))
@@ -202,7 +215,8 @@ def nullInnerTyped : NullKind → GoVal → Prop
 
 /-- `Typed M T g`: `g` is a value of Go type `T` (the budget `M` bounds its depth). Beyond shape:
 a float32 is not a signalling NaN (the float32→float64→float32 conversions would quiet it), a map has
-one value per key, times are printable (RFC 3339 can express them). -/
+one value per key, times are printable (RFC 3339 can express them), every field of a struct is
+encoded (a skipped field is not written and reads back as its zero value). -/
 def Typed : Nat → GoType → GoVal → Prop
   | 0, _, _ => False
   | n + 1, T, g =>
@@ -217,7 +231,7 @@ def Typed : Nat → GoType → GoVal → Prop
     | .map _ v, .map _ ks vs => ks.length = vs.length ∧ ∀ x ∈ vs, Typed n v x
     | .ptr _, .ptr none => True
     | .ptr e, .ptr (some x) => Typed n e x
-    | .struct _ _ fs, .struct gs => TypedFields (Typed n) fs gs
+    | .struct _ _ fs, .struct gs => allEnc fs = true ∧ TypedFields (Typed n) fs gs
     | .time, .time t => t.Printable
     | .nullT k, .nullw _ inner => nullInnerTyped k inner
     | _, _ => False
@@ -309,8 +323,8 @@ theorem bareCodec_ptr (n : Nat) (e : GoType) (oe : Bool) :
 theorem bareCodec_struct (n : Nat) (nm pkg : String) (fs : List GoField) (oe : Bool) :
     bareCodec (n + 1) (.struct nm pkg fs) oe =
       if structOk fs then
-        (allSome (fs.map fun f => fieldCodec n f.type (omitEmptyTag f.jsonTag))).map fun cs =>
-          .record (zeroFields fs) cs ((List.range fs.length).map some)
+        (allSome ((encFields fs).map fun f => fieldCodec n f.type (omitEmptyTag f.jsonTag))).map fun cs =>
+          .record (zeroFields fs) cs (targetsFrom 0 fs)
       else none := by
   simp only [bareCodec]
 
@@ -503,6 +517,22 @@ theorem zeroFields_length : ∀ fs : List GoField, (zeroFields fs).length = fs.l
   | [] => rfl
   | .mk _ _ _ _ _ :: fs => by simp [zeroFields, zeroFields_length fs]
 
+theorem encFields_all {fs : List GoField} (h : allEnc fs = true) : encFields fs = fs := by
+  unfold encFields
+  rw [List.filter_eq_self]
+  intro f hf
+  simp only [allEnc, List.all_map, List.all_eq_true] at h
+  exact h f hf
+
+theorem targetsFrom_all : ∀ (fs : List GoField) (i : Nat), allEnc fs = true →
+    targetsFrom i fs = (List.range' i fs.length).map some
+  | [], _, _ => rfl
+  | f :: fs, i, h => by
+    have h' : (nameForField f != "-") = true ∧ allEnc fs = true := by
+      simpa [allEnc] using h
+    simp only [targetsFrom, h'.1, if_true, List.length_cons, List.range'_succ, List.map_cons]
+    rw [targetsFrom_all fs (i + 1) h'.2]
+
 theorem zipWith_fields_agree (φ : GoField → Option Codec) (P : GoType → GoVal → Prop)
     (F0 F7 : GoField → GoVal → GoVal) (Nm : Codec → GoVal → GoVal) :
     ∀ (fs : List GoField) (cs : List Codec) (gs : List GoVal), allSome (fs.map φ) = some cs → TypedFields P fs gs →
@@ -686,6 +716,8 @@ theorem agree_bare_step (hlaws : EnvLaws env) (N : Nat) (ih : AgreeAt env N) :
     clear hpre
     cases g <;> simp only [Typed] at ht
     rename_i gs
+    obtain ⟨henc, ht⟩ := ht
+    rw [encFields_all henc, targetsFrom_all fs 0 henc, ← List.range_eq_range'] at hb
     split at hb
     · simp only [Option.map_eq_some_iff] at hb
       obtain ⟨cs, hcs, rfl⟩ := hb
@@ -982,11 +1014,13 @@ with the default string schema, `null.*`), its codec `c` and a well-typed value 
 model reads back (`normCodec … c g`, by `roundTrip`) and the written value agree up to the documented
 normalisations and the three recorded deviations D27, D30, D32:
 `normSpec T (normCodec c g) = normSpecD 7 T g`.
-Excluded: named (`custom`) types, uint/int8/complex/array kinds, structs with skipped (unexported or
-"-") fields or clashing names, non-default time schemas (long / date logical types), `null.Float`
-under a `float` schema; for those nothing is claimed. That `fieldCodec` is the codec the builder model
-yields for the generated schema is checked on concrete types only (`example … tBig`, `cPP_built`, …),
-not proved in general. -/
+Excluded: named (`custom`) types, uint/int8/complex/array kinds, structs with clashing names,
+non-default time schemas (long / date logical types), `null.Float` under a `float` schema; for those
+nothing is claimed. `fieldCodec` is also defined for structs with skipped (unexported or "-") fields,
+but `Typed` asks that every field of a struct value is encoded: a skipped field is not written and
+reads back as its zero value. That `fieldCodec` is the codec the builder model yields for the
+generated schema is proved in general in `Lemmas/TypeCodec.lean` (`built_is_fieldCodec`); the
+`example … tBig`, `cPP_built`, … here are instances. -/
 theorem normSpec_agrees (hlaws : EnvLaws env) (N M n n' : Nat) (T : GoType) (oe : Bool) (c : Codec) (g : GoVal)
     (hc : fieldCodec N T oe = some c) (ht : Typed M T g) (hn : N ≤ n) (hn' : N ≤ n') :
     normSpec n' T oe (normCodec env n c g) = normSpecD 7 n' T oe g :=
